@@ -48,6 +48,7 @@ func runC18(c *Ctx) {
 	c18Counting(c, sx)
 	c18Monitor(c, sx)
 	c18Percentile(c, sx)
+	c18BucketReaders(c)
 }
 
 // c18Percentile: O-5. The percentile is read off by a scan over all bucket
@@ -156,6 +157,81 @@ func c18Percentile(c *Ctx, sx *symx.Ctx) {
 	if nTests == 0 {
 		r.Bad("O-5", fk+"#reached-test", c.P.Pos(fn.Pos()), "no comparison of the running sum with the target inside the scan")
 	}
+}
+
+// c18BucketReaders: O-5 for every other reader. A function that reads the
+// bucket counts one by one inside a loop walks the counts themselves (range
+// over h.counts, or counted up to len(h.counts)): a walk paced by another list
+// (the bucket bounds are one shorter) never sees the overflow bucket, and a
+// percentile whose rank lies there comes out below the smaller percentiles.
+func c18BucketReaders(c *Ctx) {
+	r := c.R
+	histT := metricsPkg + ".Histogram"
+	nReads := 0
+	for _, fn := range shippedFuncs(c) {
+		pk := c.P.PkgOfFunc(fn)
+		if pk == nil || pk.PkgPath != metricsPkg {
+			continue
+		}
+		loops := ssau.RangeLoops(fn)
+		fk := load.FuncKey(fn)
+		ssau.ForEachInstr(fn, false, func(in ssa.Instruction) {
+			ia, ok := in.(*ssa.IndexAddr)
+			if !ok {
+				return
+			}
+			if _, ok := ssau.IsFieldLoad(ia.X, histT, "counts"); !ok {
+				return
+			}
+			read, written := false, false
+			for _, ref := range *ia.Referrers() {
+				switch x := ref.(type) {
+				case *ssa.UnOp:
+					read = x.Op == token.MUL || read
+				case *ssa.Store:
+					written = written || x.Addr == ssa.Value(ia)
+				}
+			}
+			if !read || written {
+				return // counts[i]++ and initialisation: Observe's part (O-3)
+			}
+			nReads++
+			for _, l := range loops {
+				if ia.Index != l.Index || !l.InLoop(ia.Block()) {
+					continue
+				}
+				over := "a counted loop"
+				good := false
+				if l.Over != nil {
+					_, good = ssau.IsFieldLoad(l.Over, histT, "counts")
+					over = "the loop over " + l.Over.Name()
+					if u, ok := l.Over.(*ssa.UnOp); ok {
+						if n := ssau.FieldName(u.X); n != "" {
+							over = "the loop over the field " + n
+						}
+					}
+				}
+				if !good {
+					// a shorter walk followed by a read of the remaining count
+					ssau.ForEachInstr(fn, false, func(in2 ssa.Instruction) {
+						ib, ok := in2.(*ssa.IndexAddr)
+						if !ok || ib == ia || l.InLoop(ib.Block()) {
+							return
+						}
+						if _, ok := ssau.IsFieldLoad(ib.X, histT, "counts"); ok {
+							for _, ref := range *ib.Referrers() {
+								if u, ok := ref.(*ssa.UnOp); ok && u.Op == token.MUL {
+									good = true
+								}
+							}
+						}
+					})
+				}
+				r.Check(good, "O-5", fk+"#walks-all-bucket-counts", c.P.Pos(ia.Pos()), "the counts are read inside a loop over h.counts, or the rest is read after a shorter walk (overflow bucket included)", "the bucket counts are read at the index of "+over+", not of a loop over h.counts: the overflow bucket is never read, a percentile that lies in it is reported below the smaller ones")
+			}
+		})
+	}
+	r.Floor("O-5", "element reads of the bucket counts", nReads, 1)
 }
 
 // c18Key: find the functions that compute the key used to index the registry
